@@ -404,7 +404,7 @@ theorem de_approx_variant (F : Nat → Prop) (hF : ∀ b, F b → b < 2 ^ 64) :
     obtain ⟨ws, rfl, hws⟩ := approxEq_list xs l' hl'
     obtain ⟨ds', hds', hR⟩ := de_approx_tuple F hF ts ds xs ws wf.1 h hl hxs hws
     exact ⟨n, some (Value.list ws), .seq ds', by simp [variantValue], by simp [VariantList.names],
-      fun k => by simp [deVariant_tuple, deTupleSeq_vec_ok hds'],
+      fun k => by simp [deVariant_tuple, deTupleLike_vec_ok hds'],
       by simp only [Data.approxEqAtVariant]; exact ⟨ds', rfl, hR⟩⟩
   | .cons n (.struct fs) vs, 0, p, v, w, wf, hnd, h, hl, hs, hw => by
     simp only [WFVariants] at wf
